@@ -292,7 +292,7 @@ def main(tier, seed):
     try:
         translate()
         run.obligation("translate:SamplerConfig checks + construction path", True)
-    except TranslateError as e:
+    except Exception as e:  # fail closed: anything the translator cannot digest
         run.obligation("translate:SamplerConfig checks + construction path", False, str(e))
     run.prove("Props/C18.v", link_rels=["Link/Config.v"])
     work = Path(tempfile.mkdtemp(prefix="c18_", dir=run.scratch.dir))
